@@ -85,6 +85,13 @@ def native_run(mod, job, inputs, named, watchdog=10.0):
     return out, nvm
 
 
+def default_on_bound(job, nat):
+    """The interpreter hit a loop/recursion bound: the native run of the real code on the same inputs decides."""
+    if nat is not None and nat[0] == 'ret' and isinstance(nat[1], str) and nat[1].startswith('VIOLATION'):
+        return nat[1]
+    return None
+
+
 def outcomes_agree(sym, nat):
     if sym[0] != nat[0]:
         return False
@@ -326,8 +333,8 @@ def _run_job(pid, job, opts, res, ctl=None):
         if kind == 'bound':
             # decide natively between "does not terminate / recursion error", and "bound too small"
             seen_viol[vkey] = seen_viol.get(vkey, 0) + 1
-            on_bound = getattr(mod, 'on_bound', None)
-            verdict = on_bound(job, nat) if on_bound else None
+            on_bound = getattr(mod, 'on_bound', default_on_bound)
+            verdict = on_bound(job, nat)
             if verdict is not None and is_violation(verdict):
                 key = finding_key(job, verdict, inputs, named) if finding_key else f'{job.get("family", job["name"])}|{verdict}'
                 res['violations'].append(dict(key=key, verdict=verdict, job=job_pub, inputs=jsonable_inputs(inputs), named=named,
@@ -592,8 +599,8 @@ def replay_file(path):
     job['args'] = tuple(job.get('args', ()))
     inputs = inputs_from_json(body['inputs'])
     nat, nvm = native_run(mod, job, inputs, body.get('named', {}), job.get('watchdog', 10.0))
-    on_bound = getattr(mod, 'on_bound', None)
-    verdict = nat[1] if nat[0] == 'ret' else (on_bound(job, nat) if on_bound else None)
+    on_bound = getattr(mod, 'on_bound', default_on_bound)
+    verdict = nat[1] if nat[0] == 'ret' else on_bound(job, nat)
     print(f'replay property={pid} job={job["name"]} inputs: {show_inputs(inputs, body.get("named", {}))}')
     print(f'native outcome: {nat[0]}:{nat[1]}')
     if isinstance(verdict, str) and verdict.startswith('VIOLATION'):
